@@ -167,7 +167,7 @@ func (d *double) answer(conn *redis.Conn, call string) (*redis.Message, error) {
 		// very call if it comes a little later; otherwise the framework asked the store something the request is
 		// not defined to ask, and no scripted answer applies.
 		found := -1
-		for i := 1; i < len(d.script) && i < 16; i++ {
+		for i := 1; i < len(d.script) && i < 64; i++ {
 			if d.script[i].expect == call {
 				found = i
 				break
